@@ -16,7 +16,7 @@ RULE = ("case = (key, prefix, allow_unicode_keys, path); path in helper (check_k
         "fake network; the memcached model's parsed command must carry exactly prefix+encoded key). Enumerated: all "
         "bytes keys of length 1-3 over 16 representatives (the 7 forbidden bytes, a, 0x01, 0x1c, 0x1f, 0x7f, 0x80, "
         "0x85, 0xa0, 0xff); all keys of length 1-2 over the full byte alphabet (bytes, and str over code points "
-        "0-255 + U+0100/2028/3000/20AC/1F600); every byte at every position of keys of length 5 and 250; byte lengths "
+        "0-255 + U+0100/2028/3000/20AC/1F600); str keys that are not in a Unicode normal form (combining sequences, compatibility characters, a leading U+FEFF; also exactly 250 bytes long) together with their UTF-8 bytes spelling; every byte at every position of keys of length 5 and 250; byte lengths "
         "248..252 from 1/2/3/4-byte UTF-8 characters; prefix lengths 0..250 crossing 250 at every split; str and "
         "bytes prefixes. Hypothesis: random keys/prefixes. Oracle: an independent predicate (encode, prepend, <=250 "
         "bytes, none of the 7 forbidden bytes); accepted => returned/transmitted key == prefix+encoded; rejected => "
@@ -37,6 +37,8 @@ ASSUMPTIONS = [
 FORBIDDEN = b" \t\r\n\x0b\x0c\x00"
 REPS = [0x20, 0x09, 0x0D, 0x0A, 0x0B, 0x0C, 0x00, 0x61, 0x01, 0x1C, 0x1F, 0x7F, 0x80, 0x85, 0xA0, 0xFF]
 EXTRA_CP = [0x100, 0x2028, 0x3000, 0x20AC, 0x1F600]
+# str keys that are legal but not in a Unicode normal form: the wire key is the UTF-8 of the code points as given
+NON_NORMAL = ["cafe\u0301", "\u212b", "\u2126", "\u1100\u1161", "\ufb01", "\u0958" * 83 + "a", "e\u0301" * 83 + "e", "\ufeffk", "A\u030a\u0327", "\u1e9b\u0323", "\u2000k".replace("\u2000", "\u00a0")]
 
 
 def spec(key, prefix, au):
@@ -166,6 +168,12 @@ def full_alphabet_cases(tier, seed):
                     yield (chr(cp), b"", au, path, enc)
                     yield ("k" + chr(cp) + "k", b"p:", au, path, enc)
                     yield (bytes([cp & 0xFF]), b"", au, path, enc)
+    for k in NON_NORMAL:
+        for au in (False, True):
+            for prefix in (b"", b"p:", "pre"):
+                for path in _paths_cheap() + ["wire-client", "wire-pooled", "wire-hash", "wire-hash-pooled", "wire-client-ie"]:
+                    yield (k, prefix, au, path)
+                    yield (k.encode("utf-8"), prefix, au, path)
     for cp in EXTRA_CP:
         for au in (False, True):
             for path in _paths_cheap() + ["wire-client", "wire-hash"]:
@@ -292,7 +300,8 @@ def random_strategy(tier):
     chars = st.one_of(st.characters(min_codepoint=0x21, max_codepoint=0x7E),
                       st.characters(min_codepoint=0, max_codepoint=0xFF),
                       st.characters(exclude_categories=["Cs"]), forb)
-    skey = st.text(chars, min_size=1, max_size=260)
+    combining = st.sampled_from(["\u0301", "\u0327", "\u030a", "\u0323", "\u212b", "\u2126", "\ufb01", "\u0958", "\ufeff", "\u1161"])
+    skey = st.one_of(st.text(chars, min_size=1, max_size=260), st.lists(st.one_of(st.characters(min_codepoint=0x41, max_codepoint=0x7A), combining), min_size=1, max_size=90).map("".join))
     bkey = st.binary(min_size=1, max_size=260)
     longk = st.integers(240, 256).flatmap(lambda n: st.one_of(
         st.binary(min_size=n, max_size=n),
